@@ -47,6 +47,23 @@ def drain : Nat → LEnum K → List K
       | none => []
     else []
 
+/-- call `Next` exactly `n` times with no `HasMoreElements` in between -/
+def takeN : Nat → LEnum K → List K
+  | 0, _ => []
+  | n + 1, e =>
+    match e.next with
+    | some (k, e') => k :: takeN n e'
+    | none => []
+
+theorem takeN_eq (n : Nat) (e : LEnum K) : takeN n e = e.rest.take n := by
+  induction n generalizing e with
+  | zero => simp [takeN]
+  | succ n ih =>
+    obtain ⟨r⟩ := e
+    cases r with
+    | nil => simp [takeN, next]
+    | cons k t => simp [takeN, next, ih]
+
 theorem drain_eq (e : LEnum K) (fuel : Nat) (h : e.rest.length ≤ fuel) : drain fuel e = e.rest := by
   induction fuel generalizing e with
   | zero =>
@@ -184,6 +201,55 @@ theorem drain_eq (t : Table K V) (fuel : Nat) (e : PEnum K V) (h : (remaining t 
       simp only [hc]
       rw [ih _ (by simp at h ⊢; omega)]
 
+/-! #### driving the enumerator without HasMoreElements (the `Size()`-driven loops of `IntSet.ToString`, `KeyArray`, …) -/
+
+/-- call `Next` exactly `n` times with no `HasMoreElements` in between (stops early only if exhausted) -/
+def takeN (t : Table K V) : Nat → PEnum K V → List (K × V)
+  | 0, _ => []
+  | n + 1, e =>
+    match next t e with
+    | some (c, e') => c :: takeN t n e'
+    | none => []
+
+/-- `Next` alone is correct: it runs the skip loop itself, so `n` bare calls yield the first `n` remaining elements -/
+theorem takeN_eq (t : Table K V) (n : Nat) (e : PEnum K V) : takeN t n e = (remaining t e).take n := by
+  induction n generalizing e with
+  | zero => simp [takeN]
+  | succ n ih =>
+    unfold takeN next
+    cases hc : (advance t e).entry with
+    | nil => simp only [hc]; rw [advance_entry_nil t e hc]; simp
+    | cons c r =>
+      have hr : remaining t e = c :: remaining t ⟨(advance t e).index, r⟩ := by
+        rw [← remaining_advance t e]
+        simp [remaining, hc]
+      simp only [hc]
+      rw [hr, ih]; simp
+
+/-- `HasMoreElements` (which moves `index`/`entry` past empty buckets) may be called any number of times between two
+    `Next`s: it is idempotent and does not change what `Next` returns -/
+theorem seek_seek (t : Table K V) (i : Nat) (h : (seek t i).entry.isEmpty = true) : seek t (seek t i).index = seek t i := by
+  induction i with
+  | zero => rfl
+  | succ i ih =>
+    by_cases hb : (t.bucket i).isEmpty
+    · have e1 : seek t (i + 1) = seek t i := by simp [seek, hb]
+      rw [e1] at h ⊢; exact ih h
+    · have e1 : seek t (i + 1) = ⟨i, t.bucket i⟩ := by simp [seek, hb]
+      rw [e1] at h; exact absurd h hb
+
+theorem advance_idem (t : Table K V) (e : PEnum K V) : advance t (advance t e) = advance t e := by
+  unfold advance
+  by_cases h : e.entry.isEmpty
+  · simp only [h, if_true]
+    by_cases h2 : (seek t e.index).entry.isEmpty
+    · simp only [h2, if_true]; exact seek_seek t _ h2
+    · simp [h2]
+  · simp [h]
+
+theorem next_after_hasMore (t : Table K V) (e : PEnum K V) : next t (advance t e) = next t e := by
+  unfold next; rw [advance_idem]
+
 end PEnum
 
 namespace Table
@@ -193,6 +259,10 @@ def openEnum (t : Table K V) : PEnum K V := ⟨t.cap, []⟩
 
 theorem remaining_open (t : Table K V) : PEnum.remaining t t.openEnum = t.entries := by
   simp [PEnum.remaining, openEnum, entries]
+
+/-- `Size()` bare calls of `Next` on a fresh enumerator yield exactly `entries` -/
+theorem takeN_open (t : Table K V) (n : Nat) (h : t.entries.length = n) : PEnum.takeN t n t.openEnum = t.entries := by
+  rw [PEnum.takeN_eq, remaining_open, ← h, List.take_length]
 
 /-- HasMoreElements / Next until exhausted yields exactly `entries` -/
 theorem drain_open (t : Table K V) (fuel : Nat) (h : t.entries.length ≤ fuel) :
